@@ -134,6 +134,35 @@ static void sub_product_random() {
 }
 
 //---------------------------------------------------------------------------
+// block-valued products: 2x2 blocks with small integer entries (blocks do not commute), exact dense reference
+//   C(i,j) = sum_k A(i,k) * B(k,j)   (in this order)
+static void sub_product_block() {
+    typedef static_matrix<double, 2, 2> Bk; typedef backend::crs<Bk> BM;
+    long N = vf::tier(60, 800);
+    for (long idx = 0; idx < N; ++idx) {
+        if (!vf::selected("product_block", idx)) continue;
+        Rng r(vf::case_seed("product_block", idx)); size_t n = r.range(1, 14), k = r.range(1, 14), m = r.range(1, 14); double dens = r.pick(std::vector<double>{0.15, 0.4, 0.8});
+        Csr<double> PA = vf::random_int_sparse(n, k, dens, 1, r), PB = vf::random_int_sparse(k, m, dens, 1, r);
+        auto blocks = [&](size_t nnz) { std::vector<Bk> v(nnz); for (auto &b : v) for (int q = 0; q < 4; ++q) b(q) = (double)r.range(-3, 3); return v; };
+        std::vector<Bk> va = blocks(PA.nnz()), vb = blocks(PB.nnz()); BM a(n, k, PA.ptr, PA.col, va), b(k, m, PB.ptr, PB.col, vb);
+        Case c("product_block", idx, J().n("n", n).n("k", k).n("m", m).n("dens", dens).n("threads", omp_get_max_threads()));
+        std::vector<Bk> D(n * m, math::zero<Bk>()); std::vector<char> S(n * m, 0);
+        for (size_t i = 0; i < n; ++i) for (auto ja = PA.ptr[i]; ja < PA.ptr[i + 1]; ++ja) { auto cc = PA.col[ja]; for (auto jb = PB.ptr[cc]; jb < PB.ptr[cc + 1]; ++jb) { size_t q = i * m + PB.col[jb]; D[q] = D[q] + va[ja] * vb[jb]; S[q] = 1; } }
+        auto cmp = [&](const BM &C, const std::string &what, bool sorted) {
+            std::string wf = wellformed(C, n, m, sorted); if (!c.check(wf.empty(), what + ":malformed:" + wf, "CRS well-formedness monitor: " + wf)) return;
+            size_t cnt = 0, exp = 0; for (auto x : S) exp += x; bool pat = true, val = true;
+            for (size_t i = 0; i < n; ++i) for (auto j = C.ptr[i]; j < C.ptr[i + 1]; ++j) { size_t q = i * m + C.col[j]; ++cnt; if (!S[q]) pat = false; for (int t = 0; t < 4; ++t) if (!(C.val[j](t) == D[q](t))) val = false; }
+            if (cnt != exp) pat = false;
+            c.check(pat, what + ":pattern", "block product pattern differs from the structural definition"); c.check(val, what + ":value", "block product differs from sum_k A(i,k) B(k,j) (integer blocks: exact)"); };
+        { BM C; backend::spgemm_saad(a, b, C, true); cmp(C, "spgemm_saad(block)", true); }
+        { BM C; backend::spgemm_saad(a, b, C, false); cmp(C, "spgemm_saad_nosort(block)", false); }
+        { BM C; backend::spgemm_rmerge(a, b, C); cmp(C, "spgemm_rmerge(block)", true); }
+        { auto C = backend::product(a, b, true); cmp(*C, "product(block)", true); }
+        if (PA.nnz() && PB.nnz()) c.nontrivial();
+    }
+}
+
+//---------------------------------------------------------------------------
 static void sub_transpose_sum_misc() {
     long N = vf::tier(150, 3000);
     for (long idx = 0; idx < N; ++idx) {
@@ -277,6 +306,7 @@ int main(int argc, char **argv) {
     auto all = [&]() {
         if (vf::sub_enabled("product_exhaustive")) sub_product_exhaustive();
         if (vf::sub_enabled("product_random")) sub_product_random();
+        if (vf::sub_enabled("product_block")) sub_product_block();
         if (vf::sub_enabled("misc")) sub_transpose_sum_misc();
         if (vf::sub_enabled("transpose_adjoint")) sub_transpose_adjoint();
         if (vf::sub_enabled("pointwise_exhaustive") || vf::sub_enabled("pointwise_random")) sub_pointwise();
